@@ -137,7 +137,7 @@ pub fn run_campaign<C: Campaign>(c: &C, ctx: &Ctx, cases_per_worker: u32) -> Sta
                 cfg.cases = cases_per_worker;
                 cfg.failure_persistence = None;
                 cfg.rng_seed = RngSeed::Fixed(ctx.seed.wrapping_mul(1_000_003).wrapping_add(w as u64 + 1));
-                cfg.max_shrink_iters = 400;
+                cfg.max_shrink_iters = 3000;
                 cfg.max_shrink_time = 0;
                 cfg.verbose = 0;
                 let mut runner = TestRunner::new(cfg);
